@@ -2,7 +2,10 @@ package harness
 
 import (
 	"fmt"
+	"net/url"
 	"strings"
+
+	"verifrt/simos"
 )
 
 // ---- C19: REST API and bundled client ----
@@ -12,8 +15,32 @@ var restUnsupported = map[string]bool{"log": true, "subscribe": true, "unsubscri
 
 func genC19(r *R, seed uint64, idx int, tier string) *Scenario {
 	var sc *Scenario
-	mode := Pick(r, "restscale", "restupdate", "restlife", "restlife")
+	mode := Pick(r, "restscale", "restupdate", "restlife", "restlife", "restnames")
 	switch mode {
+	case "restnames":
+		// process names that need escaping in a URL path: the client and the router must agree
+		sc, _ = baseScenario("C19", seed)
+		odd := Pick(r, "my worker", "a+b", "50%", "q?x", "h#1", "w%41", "x&y=1", "sp ace+plus")
+		spec := &ProjectSpec{}
+		sc.Project = spec
+		sc.Scripts = map[string]*TokenScript{}
+		spec.Procs = append(spec.Procs, &ProcSpec{Name: odd, Token: "odd"}, &ProcSpec{Name: "b0", Token: "b0"})
+		sc.Scripts["odd"] = &TokenScript{Launches: []simos.Script{{LifeMs: -1, TermLagMs: 10, Out: []simos.OutChunk{{AtMs: 1, Stream: 1, Data: "hello\n"}}}}}
+		sc.Scripts["b0"] = &TokenScript{Launches: []simos.Script{{LifeMs: -1, TermLagMs: 10}}}
+		var ops []Op
+		at := 500
+		for _, o := range []string{"stop", "start", "restart", "stop", "start"} {
+			if r.P(600) {
+				ops = append(ops, Op{AtMs: at, Op: o, Arg: odd})
+				at += Pick(r, 500, 1000)
+			}
+		}
+		sc.Clients = append(sc.Clients, Client{Name: "c", Ops: ops})
+		sc.Strategy = genStrategy(r)
+		sc.Strategy.StallPermille = 0
+		sc.RunForMs = 8000
+		sc.QuietMs = 3000
+		sc.Arm = "names"
 	case "restscale":
 		sc, _ = baseScenario("C19", seed)
 		genC13(NewR(seed, 2), sc, tier)
@@ -45,7 +72,7 @@ func genC19(r *R, seed uint64, idx int, tier string) *Scenario {
 	for _, p := range sc.Project.Procs {
 		names = append(names, ReplicaNames(p.Name, p.Replicas)...)
 	}
-	valid := names[r.Intn(len(names))]
+	valid := url.PathEscape(names[r.Intn(len(names))])
 	// reads compared with direct calls
 	var cops []Op
 	for x := 400; x < last+500; x += Pick(r, 300, 700, 1100) {
@@ -87,6 +114,17 @@ func genC19(r *R, seed uint64, idx int, tier string) *Scenario {
 	sortOps(fops)
 	fops = append(fops, Op{AtMs: last + 600, Op: "http", Arg: "GET /live"})
 	sc.Clients = append(sc.Clients, Client{Name: "fuzz", Ops: fops})
+	// valid requests at the edges of their parameters' ranges: whatever the answer, never 5xx
+	var eops []Op
+	for i := r.Range(0, 4); i > 0; i-- {
+		path := fmt.Sprintf("/process/logs/%s/%s/%s", valid, Pick(r, "0", "1", "2", "5", "-1", "-3", "9223372036854775807"),
+			Pick(r, "9223372036854775807", "9223372036854775806", "9223372036854775800", "0", "-1", "-9223372036854775808"))
+		eops = append(eops, Op{AtMs: 300 + r.Intn(last), Op: "http", Arg: "GET " + path})
+	}
+	sortOps(eops)
+	if len(eops) > 0 {
+		sc.Clients = append(sc.Clients, Client{Name: "edge", Ops: eops})
+	}
 	if sc.RunForMs < last+1500 {
 		sc.RunForMs = last + 1500
 	}
@@ -101,6 +139,13 @@ func checkC19(sc *Scenario, res *RunResult, t *Truth) []Violation {
 	// the operations went through REST: the oracles of the direct calls must hold unchanged
 	var sub []Violation
 	switch sc.Mode2 {
+	case "restnames":
+		// a request about an existing process is never answered "no such process"
+		for _, c := range t.Calls {
+			if c.Client == "c" && c.RetSeq >= 0 && (strings.Contains(c.Err, "no such") || strings.Contains(c.Err, "not found") || strings.Contains(c.Err, "404")) {
+				add("rest-outcome-differs", c.Op, fmt.Sprintf("%s through the REST client failed with %q although the process exists", c.Desc, c.Err), c.RetSeq)
+			}
+		}
 	case "restscale":
 		sub = checkC13(sc, res, t)
 	case "restupdate":
@@ -114,6 +159,12 @@ func checkC19(sc *Scenario, res *RunResult, t *Truth) []Violation {
 	for _, c := range t.Calls {
 		switch d := c.Data.(type) {
 		case *HTTPResult:
+			if c.Client == "edge" && d != nil {
+				if d.Panic != "" || d.Status >= 500 {
+					add("server-error-5xx", "edge", fmt.Sprintf("%s was answered %d %s %s", c.Desc, d.Status, d.Panic, clipStr(d.Body, 200)), c.RetSeq)
+				}
+				continue
+			}
 			if c.Client != "fuzz" || d == nil {
 				continue
 			}
